@@ -846,6 +846,17 @@ func genC03(r *Rng, tier string) []Case {
 		}
 	}
 
+	// the decoding side at the block limits: an Echo request (one parameter word) with a data block up to 65535 octets is
+	// 32 + 1 + 2 + 2 + 65535 octets long and decodes like any other
+	for _, n := range []int{65498, 65499, 65500, 65533, 65535} {
+		rb := append(c03HeaderBytes(rx, 0x2B, false), c03Blocks(rx.Bytes(2), rx.Bytes(n))...)
+		unm(rb, "dispatch.unmarshal-block-limit")
+		if c03Specific(rb) != "panic" {
+			ra := []string{hx(rb), "2"}
+			cs = append(cs, Case{Op: "c03.msg.remarshal", MArgs: ra, SArgs: ra, NoM: true, Tag: "repeat.decoded-message-block-limit"})
+		}
+	}
+
 	// ---- Message.Marshal -------------------------------------------------------------------------
 	rm := r.Fork("msg")
 	type cmdSpec struct {
